@@ -60,6 +60,18 @@ def overlong(val):
 
 
 def classify(rec):
+    if rec["op"] == "vseq":
+        # first verdict of the history that is not the verdict of its own operation (informational fields written by
+        # the harness: muts = "<object>/<mutation>" per step)
+        for k, (m, a) in enumerate(zip(rec.get("muts", []), rec["acc"])):
+            mut = m.split("/")[-1]
+            genuine = mut == "none"
+            if mut in ("sig-trailing", "sig-malleable"):
+                continue
+            if a != genuine:
+                return {"kind": "vseq", "key": rec["key"], "step_genuine": genuine, "accepted": a, "first_step": k == 0,
+                        "object": m.split("/")[0]}
+        return {"kind": "vseq", "key": rec["key"], "step_genuine": None, "accepted": None, "first_step": False, "object": ""}
     if rec["op"] == "verify":
         return {"kind": "verify", "mut": rec["mut"], "accepted": rec["accepted"], "what": rec.get("note", "").split(" ")[0]}
     r = rec["r"]
@@ -78,6 +90,10 @@ def classify(rec):
 
 
 def describe(rec):
+    if rec["op"] == "vseq":
+        return ("one ct.SignatureVerifier (key type %s) applied to the operations %s returned the verdicts %s; every "
+                "verdict must be that of its own operation (accept iff genuine), independent of the history" %
+                (rec["key"], rec.get("muts"), rec["acc"]))
     if rec["op"] == "verify":
         return "verifier %s a %s object (%s), the ideal-signature rule demands the opposite" % (
             "accepted" if rec["accepted"] else "rejected", rec["mut"], rec.get("note", ""))
@@ -89,7 +105,11 @@ def run(ctx):
     quick = ctx.quick
     # U2: TLC enumerates the cases with the demanded layouts / verdicts
     extra = "{}" if quick else "{2, 255, 256, 257, 65534}"
-    r = ctx.tlc("CTCodecGen", "CTCodec_gen.cfg", subst={"EXTRA": extra}, workers=1, timeout=3000, label="CTCodecGen")
+    # verifier histories: all sequences of <= SEQFULL operations over the whole alphabet (41 operations), longer ones
+    # up to SEQRED over the reduced alphabet (11 operations), per key type
+    seqfull, seqred = (2, 3) if quick else (3, 4)
+    r = ctx.tlc("CTCodecGen", "CTCodec_gen.cfg", subst={"EXTRA": extra, "SEQFULL": seqfull, "SEQRED": seqred},
+                workers=1, timeout=3000, label="CTCodecGen")
     m = re.search(r'<<"CASES", (\d+)', r.out)
     cpath = ctx.specfile(CASES)
     if not m or not os.path.exists(cpath):
@@ -104,7 +124,7 @@ def run(ctx):
     _, st = ctx.harness_output(p)
     if st.get("cases") != len(cases):
         raise Machinery("harness replayed %s of %d cases" % (st.get("cases"), len(cases)))
-    for k in ("ds", "sct", "leaf", "chain", "sigin-sct", "sigin-sth", "verify"):
+    for k in ("ds", "sct", "leaf", "chain", "sigin-sct", "sigin-sth", "verify", "vseq"):
         if not st.get("kinds", {}).get(k):
             raise Machinery("no case of kind %s" % k)
     res = read_ndjson(rpath)
@@ -113,7 +133,18 @@ def run(ctx):
     opath = ctx.path("c16_obs.ndjson")
     ctx.run(binary, ["record", opath, str(nobs)])
     obs = read_ndjson(opath)
+    # ... and long seeded random operation sequences, each on one shared verifier object
+    hpath = ctx.path("c16_hist.ndjson")
+    nh, lh = (6, 150) if quick else (60, 400)
+    ctx.run(binary, ["record-hist", hpath, cpath, str(nh), str(lh)], timeout=3000)
+    hist = read_ndjson(hpath)
+    if len(hist) != 2 * nh:
+        raise Machinery("expected %d random verifier histories, got %d" % (2 * nh, len(hist)))
+    obs += hist
     allrec = res + obs
+    vs = [x for x in allrec if x["op"] == "vseq"]
+    if not any(len(x["acc"]) >= 2 and x["acc"][-1] and not all(x["acc"]) for x in vs):
+        raise Machinery("vacuous verifier histories (no genuine operation accepted after a rejected one)")
     ver = [x for x in res if x["op"] == "verify"]
     if not any(x["accepted"] for x in ver) or not any(not x["accepted"] for x in ver):
         raise Machinery("vacuous verification matrix (no accepted or no rejected signature)")
@@ -125,7 +156,10 @@ def run(ctx):
     cands = []
     for i in rej:
         rec = allrec[i]
-        if rec["src"] == "gen":
+        if rec["op"] == "vseq":
+            vc = next(c for c in cases if c["kind"] == "vseq" and c["key"] == rec["key"])
+            case = {"kind": "vseq", "key": rec["key"], "ops": vc["ops"], "seqs": [rec["seq"]], "want": {"ok": False, "cs": [], "len": -1}}
+        elif rec["src"] == "gen":
             case = cases[rec["case"]]
         else:
             case = {"kind": rec["kind"], "val": rec["val"], "want": {"ok": False, "cs": [], "len": -1}, "obs": True}
@@ -134,11 +168,17 @@ def run(ctx):
     ctx.cov["evaluations"] += len(allrec)
     ctx.cov["cases_generated_by_tlc"] = len(cases)
     ctx.cov["random_observations"] = len(obs)
+    ctx.cov["verifier_histories"] = len(vs)
+    ctx.cov["verifier_history_steps"] = sum(len(x["seq"]) for x in vs)
     ctx.cov["results_rejected"] = len(rej)
     ctx.cov["traces_validated_against_impl"] += len(allrec) - len(rej)
     nontriv = 0
     for c in cases:
-        if c["kind"] == "verify":
+        if c["kind"] == "vseq":
+            # a history is non-trivial when a genuine operation follows a non-genuine one
+            none = {i + 1 for i, o in enumerate(c["ops"]) if o["mut"] == "none"}
+            nontriv += sum(1 for q in c["seqs"] if any(q[k] in none and q[k - 1] not in none for k in range(1, len(q))))
+        elif c["kind"] == "verify":
             nontriv += c["mut"] != "none"
         else:
             ns = re.findall(r'"n": ?(\d+)', json.dumps(c["val"]))
@@ -146,10 +186,13 @@ def run(ctx):
     ctx.cov["distinct_nontrivial"] += nontriv
     ctx.cov["exhaustive"] = True
     ctx.cov["rule"] = ("every case enumerated by CTCodecGen.tla (field length classes x versions x entry types x algorithm "
-                       "ids; object x key type x mutation), each executed on packages ct and x509/ct and judged by "
+                       "ids; object x key type x mutation; every short sequence of verify operations on one verifier object per key "
+                       "type), each executed on packages ct and x509/ct and judged by "
                        "Trace_CTCodec.tla, plus seeded random values; non-trivial = some variable-length field is "
-                       "empty, maximal or over-long, or the presented object is mutated")
+                       "empty, maximal or over-long, or the presented object is mutated, or (histories) a genuine operation "
+                       "follows a non-genuine one on the same verifier")
     ctx.add_samples([cases[len(cases) // 3], [c for c in cases if c["kind"] == "verify"][3]], n=2)
+    ctx.cov["samples"].append({"verifier_history": {k: vs[len(vs) // 2][k] for k in ("key", "muts", "acc")}})
 
     # reproduction: every distinct candidate is executed again in its own fresh process; TLC then judges all
     # re-recorded outcomes in one run
@@ -189,10 +232,13 @@ def selftest(ctx, res):
     a = copy.deepcopy(good_ser); a["r"]["rt"] = False; v.append(a)
     a = copy.deepcopy(good_ver); a["accepted"] = False; v.append(a)
     a = copy.deepcopy(bad_ver); a["accepted"] = True; v.append(a)
-    rej = judge(ctx, v + [good_ser, good_ver, bad_ver], "Trace_CTCodec judge [selftest]")
-    if sorted(rej) != [0, 1, 2, 3, 4]:
-        raise Machinery("selftest: judge rejected %s, expected exactly the five corrupted records" % rej)
-    ctx.note("binding self-test passed (five corrupted outcome records rejected, three genuine ones accepted)")
+    hist = next(x for x in res if x["op"] == "vseq" and len(x["acc"]) >= 2 and x["acc"][-1] and not x["acc"][0])
+    a = copy.deepcopy(hist); a["acc"][-1] = False; v.append(a)       # genuine operation rejected after a failure
+    a = copy.deepcopy(hist); a["acc"][0] = True; v.append(a)         # non-genuine operation accepted
+    rej = judge(ctx, v + [good_ser, good_ver, bad_ver, hist], "Trace_CTCodec judge [selftest]")
+    if sorted(rej) != [0, 1, 2, 3, 4, 5, 6]:
+        raise Machinery("selftest: judge rejected %s, expected exactly the seven corrupted records" % rej)
+    ctx.note("binding self-test passed (seven corrupted outcome records rejected, four genuine ones accepted)")
 
 
 def replay(ctx, path):
